@@ -415,7 +415,8 @@ func init() {
 				if op.Type() == LTFunction {
 					reg.Push(op)
 					reg.Push(unaryv)
-					L.Call(1, 1)
+					reg.Push(unaryv)
+					L.Call(2, 1)
 					// +inline-call reg.Set RA reg.Pop()
 				} else if str, ok1 := unaryv.(LString); ok1 {
 					if num, err := parseNumber(string(str)); err == nil {
